@@ -27,6 +27,7 @@ import (
 
 	"github.com/mna/pigeon/ast"
 	"github.com/mna/pigeon/builder"
+	"github.com/mna/pigeon/internal/vorder"
 )
 
 type verifReq struct {
@@ -48,6 +49,7 @@ type verifReq struct {
 	AltEntry   []string `json:"alt_entry,omitempty"`
 	Recv       string   `json:"recv,omitempty"`
 	NoPrepare  bool     `json:"no_prepare,omitempty"`
+	Order      []int    `json:"order,omitempty"` // map iteration choices (overlay build only)
 }
 
 type verifNode struct {
@@ -71,17 +73,18 @@ type verifNode struct {
 }
 
 type verifResp struct {
-	Err     string     `json:"err,omitempty"`
-	ErrKind string     `json:"err_kind,omitempty"` // parse | entrypoint | build | harness
-	Panic   string     `json:"panic,omitempty"`
-	AST     *verifNode `json:"ast,omitempty"`
-	HaveLR  bool       `json:"have_lr,omitempty"`
-	Src     []byte     `json:"src,omitempty"`
-	Exit    int        `json:"exit"`
-	Stdout  []byte     `json:"stdout,omitempty"`
-	Stderr  []byte     `json:"stderr,omitempty"`
-	OutFile []byte     `json:"out_file,omitempty"`
-	Classes []string   `json:"classes,omitempty"`
+	Err     string        `json:"err,omitempty"`
+	ErrKind string        `json:"err_kind,omitempty"` // parse | entrypoint | build | harness
+	Panic   string        `json:"panic,omitempty"`
+	AST     *verifNode    `json:"ast,omitempty"`
+	HaveLR  bool          `json:"have_lr,omitempty"`
+	Src     []byte        `json:"src,omitempty"`
+	Exit    int           `json:"exit"`
+	Stdout  []byte        `json:"stdout,omitempty"`
+	Stderr  []byte        `json:"stderr,omitempty"`
+	OutFile []byte        `json:"out_file,omitempty"`
+	Classes []string      `json:"classes,omitempty"`
+	Sites   []vorder.Site `json:"sites,omitempty"`
 }
 
 func init() {
@@ -132,10 +135,12 @@ func verifServe() {
 }
 
 func verifHandle(req *verifReq) (resp verifResp) {
+	vorder.Reset(req.Order)
 	defer func() {
 		if e := recover(); e != nil {
 			resp.Panic = fmt.Sprint(e)
 		}
+		resp.Sites = vorder.Log
 	}()
 	switch req.Mode {
 	case "classes":
